@@ -617,8 +617,42 @@ def build():
     one(r"u16::parse\(parser\)\.map\(Self\)", fn_body(ka, "parse", after="impl IdleTimeout"), "IdleTimeout::parse")
     ik = strip_comments(read("src/rdata/ipseckey.rs"))
     one(r"if len_key == 0 && algorithm != IpseckeyAlgorithm::NONE \{\s*return Err\(ParseError::ShortInput\);", ik, "Ipseckey empty key")
-    one(r"if name\.is_compressed\(\) \{\s*return Err\(ParseError::Form", ik, "Ipseckey compressed gateway")
+    gwp = " ".join(fn_body(ik, "parse", after="IpseckeyGateway<ParsedName<Octs>> {").split())
+    if "let name = ParsedName::parse(parser)?; if name.is_compressed() { return Err(ParseError::Form" in gwp:
+        ipseckey_consumed = False
+    elif ("let start = parser.pos(); let name = ParsedName::parse(parser)?; if name.is_compressed() || parser.pos() - start != usize::from(name.compose_len()) { return Err(ParseError::Form" in gwp):
+        ipseckey_consumed = True
+    else:
+        raise GenError("IpseckeyGateway::parse: unrecognised compressed-name check")
     gws = [one(r"IpseckeyGatewayType::%s => Some\((\d+)\)" % k, ik, "Ipseckey gateway %s" % k).group(1) for k in ("NONE", "IPV4", "IPV6")]
+    # IPSECKEY rows, one per gateway type
+    ikp = " ".join(find_fn(impls(ik), "Ipseckey", "parse", None).split())
+    one(r"let precedence = parser\.parse_u8\(\)\?; let gateway_type = IpseckeyGatewayType::parse\(parser\)\?; "
+        r"let algorithm = IpseckeyAlgorithm::parse\(parser\)\?; let gateway = IpseckeyGateway::parse\(parser, gateway_type\)\?; "
+        r"let len_key = parser\.remaining\(\);", ikp, "Ipseckey::parse field order")
+    one(r"let key = parser\.parse_octets\(len_key\)\?; Ok\(Self \{ precedence, gateway_type, algorithm, gateway, key, \}\)", ikp, "Ipseckey::parse key")
+    ikc = [re.sub(r"\?$", "", x) for x in stmts(find_fn(impls(ik), "Ipseckey", "compose_rdata", "ComposeRecordData"))]
+    if ikc != ["target.append_slice(&[self.precedence])", "target.append_slice(&[self.gateway_type.into()])",
+               "target.append_slice(&[self.algorithm.into()])", "self.gateway.compose_rdata(target)",
+               "target.append_slice(self.key.as_ref())"]:
+        raise GenError("Ipseckey::compose_rdata: unrecognised statements %r" % ikc)
+    one(r"self\.compose_rdata\(target\)", find_fn(impls(ik), "Ipseckey", "compose_canonical_rdata", "ComposeRecordData"), "Ipseckey canonical = wire")
+    gwc = " ".join(find_fn(impls(ik), "IpseckeyGateway", "compose_rdata", None).split())
+    one(r"IpseckeyGateway::None => \(\), IpseckeyGateway::Ipv4\(a\) => a\.compose_rdata\(target\)\?, "
+        r"IpseckeyGateway::Ipv6\(aaaa\) => aaaa\.compose_rdata\(target\)\?, IpseckeyGateway::Name\(n\) => n\.compose\(target\)\?,", gwc, "IpseckeyGateway::compose_rdata")
+    one(r"IpseckeyGatewayType::IPV4 => \{ IpseckeyGateway::Ipv4\(A::parse\(parser\)\?\) \}", gwp, "gateway IPv4 parse")
+    one(r"IpseckeyGatewayType::IPV6 => \{ IpseckeyGateway::Ipv6\(Aaaa::parse\(parser\)\?\) \}", gwp, "gateway IPv6 parse")
+    one(r"IpseckeyGatewayType::NAME => None,", gwp, "gateway NAME has no fixed length")
+    one(r"_ => \{ return Err\(ParseError::Form\(FormError::new\( \"Unknown IPSECKEY gateway type\", \)\)\); \}", gwp, "unknown gateway type")
+    ian = strip_comments(read("src/base/iana/ipseckey.rs"))
+    gt = ian[ian.index("IpseckeyGatewayType"):] if "IpseckeyGatewayType" in ian else ""
+    gcodes = dict((m.group(1), int(m.group(2))) for m in re.finditer(r"\(\s*(\w+)\s*=>\s*(\d+)\s*,", ian[ian.index("IpseckeyGatewayType, u8"):]))
+    size_kind = {0: [], 4: ["V4"], 16: ["V6"]}
+    ips_rows = []
+    for name, sz in zip(("NONE", "IPV4", "IPV6"), gws):
+        ips_rows.append((gcodes[name], size_kind[num(sz)]))
+    ips_rows.append((gcodes["NAME"], ["NameU false"]))
+    ips_rows.sort()
     check_consts = [num(m1.group(1)), num(m2.group(1)), num(m3.group(1)), num(c1.group(1)), num(c2.group(1)), num(c3.group(1)),
                     num(s1.group(1)), num(s2.group(1))] + [num(g) for g in gws]
     rows.sort()
@@ -646,6 +680,10 @@ def build():
     # bitmap: header octets, empty block, longest block; cookie: client, server capacity, server minimum;
     # subnet: IPv4 / IPv6 family; IPSECKEY gateway sizes none / IPv4 / IPv6
     L.append(("check_consts_src", "list N", nl(check_consts)))
+    L.append(("ipseckey_checks_consumed", "bool", b(ipseckey_consumed)))
+    L.append(("ipseckey_src", "list (N * schema)",
+              "[" + "; ".join("(%d%%N, mkS [%s] None false (PIpseckey %d%%N))" % (g, "; ".join(["U8", "U8", "U8"] + gw + ["Rest"]), g)
+                              for g, gw in ips_rows) + "]"))
     return L
 
 
